@@ -267,6 +267,23 @@ func c17(c *Ctx) {
 			}
 			return true
 		})
+		// the offered attributes: the parameter, and locals that hold (a prefix of) it — unique := attrs[:0], filled from attrs
+		offered := addA.Obj.Type().(*types.Signature).Params().At(0)
+		offeredLocals := map[types.Object]bool{}
+		inspectNoLit(addA.Body(), func(nd ast.Node) bool {
+			if as, ok := nd.(*ast.AssignStmt); ok && len(as.Lhs) == len(as.Rhs) {
+				for i, l := range as.Lhs {
+					r := unparen(as.Rhs[i])
+					if se, isSl := r.(*ast.SliceExpr); isSl {
+						r = unparen(se.X)
+					}
+					if v, isV := objOf(info, l).(*types.Var); isV && !v.IsField() && v != offered && sameVar(info, r, offered) {
+						offeredLocals[v] = true
+					}
+				}
+			}
+			return true
+		})
 		for _, row := range []struct {
 			name        string
 			lim, n, len int64
@@ -280,7 +297,7 @@ func c17(c *Ctx) {
 					return constant.MakeInt64(row.n), true
 				}
 				if call, ok := e.(*ast.CallExpr); ok && builtinName(info, call) == "len" {
-					if sameVar(info, call.Args[0], addA.Obj.Type().(*types.Signature).Params().At(0)) { // the offered attributes (parameter)
+					if sameVar(info, call.Args[0], offered) || (objOf(info, call.Args[0]) != nil && offeredLocals[objOf(info, call.Args[0])]) { // the offered attributes (parameter, or the de-duplicated list built in its array)
 						return constant.MakeInt64(row.len), true
 					}
 				}
